@@ -296,3 +296,36 @@ def scale(w, cfg):
     if keys:
         key = sorted(keys)[0]
         w.canary('canary: flows unchanged by scaling', w.eq(post['flows'].get(key, 0.), pre['flows'].get(key, 0.) + 1))
+
+
+# --------------------------------------------------------------------------- copy_flow(remove=True) with an explicit phase (MultiStream target)
+
+def move_phase_configs(tier):
+    out = []
+    for src in ['l', 'g', 'gl']:
+        for phase in ['g', 'l']:
+            for ids in ['all', 'Water']:
+                out.append({'name': f'dst=gl(empty);src={src}A;phase={phase};IDs={ids}', 'src': src, 'phase': phase, 'ids': ids})
+    return out
+
+
+@group('C01/copy_flow_remove_phase', configs=move_phase_configs,
+       functions=['thermosteam._multi_stream:MultiStream.copy_flow'])
+def copy_flow_remove_phase(w, cfg):
+    """Moving flow with removal: whatever the source loses is exactly what the (initially empty) target holds afterwards."""
+    W.reset_caches()
+    dst, _ = _mk(w, 'd', 'gl', 'A', 'empty')
+    src, _ = _mk(w, 's', cfg['src'], 'A', 'two-maybe')
+    ids = {'all': ..., 'Water': 'Water'}[cfg['ids']]
+    before = W.total_by_CAS(src)
+    dst.copy_flow(src, cfg['phase'], ids, remove=True)
+    after = W.total_by_CAS(src)
+    held = W.total_by_CAS(dst)
+    for cas in dst.chemicals.CASs:
+        w.ensure(f'[{cas}] lost by the source = held by the target', w.eq(before[cas] - after[cas], held[cas]))
+        w.ensure(f'[{cas}] source never gains', w.le(after[cas], before[cas]))
+    other_phase = 'l' if cfg['phase'] == 'g' else 'g'
+    for cas, v in W.row_by_CAS(dst, other_phase).items():
+        w.ensure(f'[{cas}] nothing lands in the phase that was not requested', w.eq(v, 0.))
+    c0 = dst.chemicals.CASs[0]
+    w.canary('canary: target stays empty although the source lost material', w.And(w.eq(held[c0], 0.), w.gt(before[c0] - after[c0], 0.)))
